@@ -125,6 +125,32 @@ fn check_scaled(before: &ScalableRecipe, after: &ScaledRecipe, factor: f64, src:
             _ => vbail!("c08.quantity-presence-changed", "{what}: quantity {:?} became {:?}; source {src:?}", b.quantity, a.quantity),
         }
     }
+    // the outcome of a group names what happened to its members (documented on GroupedIngredient::outcome):
+    // an error if any member failed, else Fixed if any member was left as written, else the definition's own
+    match guard(|| after.group_ingredients(&BUNDLED)) {
+        Err(p) => vbail!("c08.panic", "group_ingredients panicked: {p}; source {src:?}"),
+        Ok(groups) => {
+            for g in &groups {
+                let members: Vec<usize> = std::iter::once(g.index).chain(g.ingredient.relation.referenced_from().iter().copied()).collect();
+                let names: Vec<&str> = members.iter().filter_map(|i| data.ingredients.get(*i)).map(outcome_name).collect();
+                let expected = if names.contains(&"Error") {
+                    "Error"
+                } else if names.contains(&"Fixed") {
+                    "Fixed"
+                } else {
+                    outcome_name(&data.ingredients[g.index])
+                };
+                let got = g.outcome.as_ref().map(outcome_name);
+                vensure!(
+                    got == Some(expected),
+                    "c08.group-outcome",
+                    "the group of ingredient {} ({}) reports outcome {got:?}; its members {members:?} have outcomes {names:?}, which makes {expected}; source {src:?}",
+                    g.index, g.ingredient.name
+                );
+                st.class_if(members.len() > 1 && names.iter().any(|n| *n != names[0]), "group whose members have different outcomes");
+            }
+        }
+    }
     for (i, (b, a)) in before.cookware.iter().zip(&after.cookware).enumerate() {
         let o = outcome_name(&data.cookware[i]);
         match (&b.quantity, &a.quantity) {
